@@ -84,12 +84,19 @@ class _HttpServerProtocol(asyncio.Protocol):
     def connection_lost(self, exc: Exception | None) -> None:  # noqa: ARG002
         self.server._transports.discard(self.transport)
 
-    def data_received(self, data: bytes) -> None:
-        message = data.decode()
+    MAX_HEAD_SIZE = 65536
 
-        headers, _ = message.split("\r\n\r\n", maxsplit=1)
-        http_lines = headers.split("\r\n", maxsplit=1)
-        method, path, _ = http_lines[0].split(" ", maxsplit=2)
+    def data_received(self, data: bytes) -> None:
+        # a request can arrive in several segments: collect the data until the head is complete
+        self._buffer = getattr(self, "_buffer", b"") + data
+        if b"\r\n\r\n" not in self._buffer:
+            if len(self._buffer) > self.MAX_HEAD_SIZE:
+                self.transport.close()
+            return
+
+        headers = self._buffer.split(b"\r\n\r\n", maxsplit=1)[0].decode("latin-1")
+        request_line = headers.split("\r\n", maxsplit=1)[0].split(" ")
+        method, path = (request_line[0], request_line[1]) if len(request_line) > 1 else ("", "")
 
         response = self.handle_request(method, path)
 
